@@ -849,6 +849,29 @@ def _order(ctx, fx, f, n, inst):
         ctx.ok("R08.3", inst + ":order", f["loc"], None)
 
 
+def shared_subset(ctx, fx, cfg, RULE, pattern, floor):
+    """re-run this module's rules for one configuration and report those instances of R08.2 / R08.3 / R08.4 whose name matches
+    `pattern` under the caller's rule id (properties whose statement includes a clause about the registry share the rule
+    that decides that clause, and only that)"""
+    import re
+    sub = core.Ctx(ctx.prop, ctx.tier, repo=ctx.repo, seed=ctx.seed)
+    sub._bodies = ctx._bodies
+    check_cfg(sub, fx, cfg)
+    want = re.compile(pattern)
+    n = 0
+    for i in sub.instances:
+        if i["rule"] in ("R08.2", "R08.3", "R08.4") and want.match(i["instance"]):
+            n += 1
+            if i["ok"]:
+                ctx.ok(RULE, i["instance"], i.get("site"), i.get("detail"))
+    for v in sub.violations:
+        if v["rule"] in ("R08.2", "R08.3", "R08.4") and want.match(v["instance"]):
+            ctx.viol(RULE, v["instance"], v["msg"], fn=v.get("fn"), site=v.get("site"), trace=v.get("trace"))
+    ctx.floor(RULE, "shared registry rules (%s)" % cfg, n, floor)
+    ctx.states += sub.states
+    ctx.transitions += sub.transitions
+
+
 def check_no_live_eviction(ctx, fx, cfg, RULE):
     """the registry is a strong holder of the services registered in it: an entry is overwritten only by the explicit
     `replace` / removed by `unregister`, or — in `register` and spawn-on-demand — after it was found absent or stopped under
